@@ -379,6 +379,9 @@ type relayScenario struct {
 	// Fault[d] = "i:short:k" | "i:err:k": the i-th Write of copier d may (also) end that way
 	Fault map[string]string
 	Split bool // also explore 1-byte reads
+	// EnvFirst: the sides produce everything (and end) before the copiers take their first
+	// step; only the interleavings of the copiers' own steps are enumerated
+	EnvFirst bool
 }
 
 type relayCase struct {
@@ -408,13 +411,14 @@ type relayState struct {
 	events  []string
 	oracle  []string // violations: "sig|desc"
 	closeBy map[string]int
+	chunks  map[string][]int // sizes of the fed chunks still (partly) in the inbox
 }
 
 func newRelayState() *relayState {
 	return &relayState{parked: map[string]string{}, inbox: map[string]int{}, fin: map[string]string{},
 		closed: map[string]bool{}, fed: map[string]int{}, writes: map[string]int{}, grants: map[string]int{},
 		fedB: map[string][]byte{}, fwd: map[string][]byte{}, ended: map[string]string{}, wfail: map[string]bool{},
-		closeBy: map[string]int{}, bothAt: -1}
+		closeBy: map[string]int{}, bothAt: -1, chunks: map[string][]int{}}
 }
 
 var srcOf = map[string]string{"ab": "A", "ba": "B"}
@@ -440,6 +444,9 @@ func (s *relayState) absorb(cmd string, rep string) bool {
 		if f[0] == "ok" {
 			b := vlib.UnHex(w[2])
 			s.inbox[w[1]] += len(b)
+			if len(b) > 0 {
+				s.chunks[w[1]] = append(s.chunks[w[1]], len(b))
+			}
 			s.fedB[w[1]] = append(s.fedB[w[1]], b...)
 			s.fed[w[1]]++
 		}
@@ -477,6 +484,15 @@ func (s *relayState) absorb(cmd string, rep string) bool {
 			if p[3] == "data" {
 				b := vlib.UnHex(p[4])
 				s.inbox[c] -= len(b)
+				for n := len(b); n > 0 && len(s.chunks[c]) > 0; {
+					if s.chunks[c][0] <= n {
+						n -= s.chunks[c][0]
+						s.chunks[c] = s.chunks[c][1:]
+					} else {
+						s.chunks[c][0] -= n
+						n = 0
+					}
+				}
 				if p[5] != "ok" {
 					s.ended[d] = map[string]string{"eof": "nil", "err": "rerr" + c}[p[5]]
 				}
@@ -563,6 +579,18 @@ func (s *relayState) absorb(cmd string, rep string) bool {
 // enabled lists the script's possible next commands in a fixed order.
 func (s *relayState) enabled(sc *relayScenario) []string {
 	var out []string
+	if sc.EnvFirst {
+		for _, c := range []string{"A", "B"} {
+			if s.fin[c] != "" {
+				continue
+			}
+			if s.fed[c] < len(sc.Chunks[c]) {
+				return []string{"feed " + c + " " + vlib.Hex(sc.Chunks[c][s.fed[c]])}
+			} else if sc.Fin[c] != "" {
+				return []string{"fin " + c + " " + sc.Fin[c]}
+			}
+		}
+	}
 	for _, d := range []string{"ab", "ba"} {
 		p := strings.Split(s.parked[d], ":")
 		switch p[0] {
@@ -575,6 +603,10 @@ func (s *relayState) enabled(sc *relayScenario) []string {
 				out = append(out, fmt.Sprintf("rd %s %d", d, s.inbox[c]))
 				if sc.Split && s.inbox[c] >= 2 {
 					out = append(out, "rd "+d+" 1")
+				}
+				if len(s.chunks[c]) > 1 && s.chunks[c][0] > 1 || len(s.chunks[c]) > 1 && !sc.Split {
+					// stop at the boundary of the oldest chunk
+					out = append(out, fmt.Sprintf("rd %s %d", d, s.chunks[c][0]))
 				}
 				if s.fin[c] != "" {
 					out = append(out, fmt.Sprintf("rd %s %d fin", d, s.inbox[c]))
@@ -771,7 +803,8 @@ func scenarios(thorough bool) []*relayScenario {
 	b1, b2 := []byte("b1"), []byte("BB2")
 	mk := func(name string, A, B [][]byte, fa, fb string, fault map[string]string, split bool) *relayScenario {
 		return &relayScenario{Name: name, Chunks: map[string][][]byte{"A": A, "B": B},
-			Fin: map[string]string{"A": fa, "B": fb}, Fault: fault, Split: split}
+			Fin: map[string]string{"A": fa, "B": fb}, Fault: fault, Split: split,
+			EnvFirst: strings.HasPrefix(name, "envfirst-")}
 	}
 	out := []*relayScenario{
 		mk("idle-eof", nil, nil, "eof", "", nil, false),
@@ -783,16 +816,19 @@ func scenarios(thorough bool) []*relayScenario {
 		mk("1chunk-werr", [][]byte{a2}, nil, "", "", map[string]string{"ab": "0:err:1"}, false),
 		mk("1chunk-short", nil, [][]byte{b2}, "", "eof", map[string]string{"ba": "0:short:2"}, false),
 		mk("2chunk-eof", [][]byte{a1, a2}, nil, "eof", "", nil, false),
+		mk("2+1-eof", [][]byte{a1, a2}, [][]byte{b1}, "eof", "", nil, false),
+		mk("envfirst-2+1-eof-eof", [][]byte{a1, a2}, [][]byte{b1}, "eof", "eof", nil, false),
+		mk("envfirst-1+2-err-werr", [][]byte{a1}, [][]byte{b1, b2}, "err", "", map[string]string{"ba": "1:err:0"}, false),
+		mk("envfirst-2+1-faults", [][]byte{a1, a2}, [][]byte{b1}, "", "eof", map[string]string{"ab": "1:err:2", "ba": "0:short:1"}, false),
 	}
 	if thorough {
 		out = append(out,
 			mk("1+1-eof-err", [][]byte{a1}, [][]byte{b1}, "eof", "err", nil, false),
-			mk("2+1-eof", [][]byte{a1, a2}, [][]byte{b1}, "eof", "", nil, false),
-			mk("2+1-eof-eof", [][]byte{a1, a2}, [][]byte{b1}, "eof", "eof", nil, false),
-			mk("1+2-err-werr", [][]byte{a1}, [][]byte{b1, b2}, "err", "", map[string]string{"ba": "1:err:0"}, false),
 			mk("3chunk-eof", [][]byte{a1, a2, a3}, nil, "eof", "", nil, false),
-			mk("3chunk-split", [][]byte{a2}, [][]byte{b2}, "eof", "", map[string]string{"ab": "1:short:0"}, true),
-			mk("2+1-faults", [][]byte{a1, a2}, [][]byte{b1}, "", "eof", map[string]string{"ab": "1:err:2", "ba": "0:short:1"}, false),
+			mk("1+1-werr-split", [][]byte{a2}, [][]byte{b1}, "eof", "", map[string]string{"ab": "1:short:0"}, true),
+			mk("envfirst-split", [][]byte{a2}, [][]byte{b2}, "eof", "", map[string]string{"ab": "1:short:0"}, true),
+			mk("envfirst-2+2-eof-err", [][]byte{a1, a2}, [][]byte{b1, b2}, "eof", "err", nil, false),
+			mk("envfirst-3+2-err-short", [][]byte{a1, a2, a3}, [][]byte{b1, b2}, "err", "eof", map[string]string{"ab": "2:short:0", "ba": "1:err:1"}, false),
 		)
 	}
 	return out
@@ -1027,7 +1063,11 @@ func main() {
 			tcases = append(tcases, termCase{Mode: m, Events: h})
 		}
 	}
+	tPhase := time.Now()
 	parallel(ws, len(tcases), func(w *worker, i int) { checkTerm(r, w.h, w.d, tcases[i], false) })
+	if os.Getenv("C19_VERBOSE") != "" {
+		fmt.Fprintf(os.Stderr, "C19: %d termMonitor cases in %.1fs\n", len(tcases), time.Since(tPhase).Seconds())
+	}
 	r.Notes["term_exhaustive_space"] = fmt.Sprintf("all %d histories of length 0..%d over {start,finish,int,term} x 3 modes", len(hs), maxLen)
 
 	// 2. real clientHandler / serverHandler against the monitor
@@ -1043,7 +1083,14 @@ func main() {
 	exh := true
 	total := 0
 	for _, sc := range scenarios(r.Thorough()) {
+		if only := os.Getenv("C19_ONLY"); only != "" && only != sc.Name {
+			continue
+		}
+		t0 := time.Now()
 		n, complete := exploreAll(r, ws, sc, r.Scale(40000, 2000000))
+		if os.Getenv("C19_VERBOSE") != "" {
+			fmt.Fprintf(os.Stderr, "C19: scenario %s: %d schedules, complete=%v, %.1fs\n", sc.Name, n, complete, time.Since(t0).Seconds())
+		}
 		r.Notes["relay_schedules_"+sc.Name] = n
 		total += n
 		if !complete {
@@ -1058,16 +1105,23 @@ func main() {
 	r.Notes["relay_exhaustive_schedules"] = total
 
 	// 4. relay: random schedules of random scripts
-	nrand := r.Scale(1500, 30000)
+	nrand := r.Scale(1500, 12000)
+	if os.Getenv("C19_ONLY") != "" {
+		nrand = 0 // measuring one scenario
+	}
 	rngs := make([]*vlib.Rng, nrand)
 	base := vlib.NewRng(r.Seed)
 	for i := range rngs {
 		rngs[i] = base.Fork()
 	}
+	tPhase = time.Now()
 	parallel(ws, nrand, func(w *worker, i int) { randomRun(r, w, rngs[i], i) })
+	if os.Getenv("C19_VERBOSE") != "" {
+		fmt.Fprintf(os.Stderr, "C19: %d random relay schedules in %.1fs\n", nrand, time.Since(tPhase).Seconds())
+	}
 
 	// 5. thorough: the same random schedules once more on a -race build of the tree
-	if r.Thorough() {
+	if r.Thorough() && os.Getenv("C19_ONLY") == "" {
 		if hookRaceBin, err = buildHook(true); err != nil {
 			r.Notes["race_build"] = "unavailable: " + strings.SplitN(err.Error(), "\n", 2)[0]
 		} else {
@@ -1100,6 +1154,9 @@ func main() {
 					}
 					r.Violate("data-race", "impl-oracle", "the race detector reported a data race in copyLoop/termMonitor: "+out, map[string]interface{}{"kind": "race"})
 				}
+			}
+			if os.Getenv("C19_VERBOSE") != "" {
+				fmt.Fprintf(os.Stderr, "C19: race phase done at %.1fs\n", time.Since(tPhase).Seconds())
 			}
 			r.Notes["race_build"] = fmt.Sprintf("%d random relay schedules and %d termMonitor histories re-run on a -race build: %d race reports", n, len(rt), races)
 		}
